@@ -388,3 +388,7 @@ mod tests {
         }
     }
 }
+
+#[cfg(kani)]
+#[path = "/verif/harness/anda_db_server/auth.rs"]
+mod verif_kani;
